@@ -205,6 +205,11 @@ func (fst *FSTree) Query(q *query.Query, local, internal bool) (*iterator.Iterat
 func (fst *FSTree) queryExecutor(walkRoot string, queryIter *iterator.Iterator, q *query.Query, local, internal bool) {
 	err := filepath.Walk(walkRoot, func(path string, info os.FileInfo, err error) error {
 		if err != nil {
+			// What does not exist holds no records: a query below a key
+			// that was never written has an empty result.
+			if errors.Is(err, fs.ErrNotExist) {
+				return nil
+			}
 			return fmt.Errorf("fstree: error in walking fs: %w", err)
 		}
 
